@@ -90,7 +90,9 @@ class Crowd(Part):
             n = rng.choice([1, 2, 3, 3, 4, 4, 5, 6, 8, 12])
             m = rng.choice([1, 2, 2, 3])
             ties = rng.random() < 0.4
-            cases.append({"kind": "front", "n": n, "m": m, "ties": ties, "cseed": rng.randrange(1 << 30)})
+            # every fourth front holds the same design more than once with costs of its own each time (a noisy or stochastic objective):
+            # the crowding distance is a function of the costs in the front, whatever the design vectors are
+            cases.append({"kind": "front", "n": n, "m": m, "ties": ties, "shared": len(cases) % 4 == 3, "cseed": rng.randrange(1 << 30)})
         return cases
 
     def run_case(self, ctx, case):
@@ -105,7 +107,11 @@ class Crowd(Part):
             cols = [rng.sample(range(0, 3 * n + 2), n) for _ in range(m)]
             vals = [[cols[d][k] for d in range(m)] for k in range(n)]
         absvecs = [{"c": v, "m": 0} for v in vals]
-        inds = make_inds(rng, absvecs)
+        vectors = None
+        if case.get("shared") and n >= 2:
+            groups = rng.choice([1, 2, max(1, n // 2)])
+            vectors = [[float(rng.randrange(groups)), 0.5] for _ in range(n)]
+        inds = make_inds(rng, absvecs, vectors)
         front = list(inds)
         rng.shuffle(front)
         st, res = observe(crowding_distance, front)
@@ -335,7 +341,8 @@ def run(ctx, replay=None):
         ctx, [Crowd(), Trunc(), Tourn()], level="model_checking",
         assumptions=["crowding: costs are affine images (positive scale) of small integers, so gap/range ratios are exact small rationals; "
                      "the observed float is projected to the nearest rational with denominator <= 20000",
-                     "duplicated designs carry identical costs (deterministic objective); design identity = exact vector",
+                     "truncation / tournament populations: duplicated designs carry identical costs (deterministic objective), design identity = exact vector; "
+                     "crowding fronts also hold one design several times with different costs (noisy objective)",
                      "tournament candidates are observed through random.sample (the public stdlib call the selector uses)"],
         level_rule="crowding: random fronts (1..12 members, 1..3 objectives) with and without tied values / zero-range objectives; truncate: "
                    "populations of the Selection model (size <=3 over 18 vectors, all sizes k) and random populations up to 30 with duplicated "
